@@ -71,7 +71,14 @@ def run_history(res, ctx, root, rng, hidx, max_steps, con):
                           "SPDX-FileCopyrightText: 2009 - 2010 Hand Writer", "Copyright 2016- 2018 Hand Writer"]),
               rng.choice(["SPDX-FileCopyrightText: 2003-2005 Mary Sue <mary@example.com>", "© 2001 Mary Sue <mary@example.com>"]),
               "", "SPDX-License-Identifier: Zlib", "SPDX-FileContributor: Hand Contributor"]
-        f.write_text(trees.comment_block(styles[t["short"]], hw, multi=rng.random() < 0.3) + "\n\nK1 code\n")
+        stt = styles[t["short"]]
+        blk = trees.comment_block(stt, hw, multi=rng.random() < 0.3)
+        if stt["multi"][0] and stt["multi"][2] and not stt["single"] and rng.random() < 0.5:
+            # the closing delimiter directly behind the last line of the block (no blank, no line of its own)
+            hw2 = [x for x in hw if x] + [rng.choice(["SPDX-FileCopyrightText: 2014 Touching <t@example.com>", "SPDX-FileCopyrightText: 2014 Touching (Holdings)"])]
+            lines = trees.comment_block(stt, hw2, multi=True).split("\n")
+            blk = "\n".join(lines[:-2] + [lines[-2] + stt["multi"][2]])
+        f.write_text(blk + "\n\nK1 code\n")
     else:
         f.write_text("K1 code\n")
         run_cli(["--no-multiprocessing", "--root", str(root), "annotate", "-c", "Earlier Holder", "-l", "CC0-1.0", "--year", "2015", str(f)], cwd=str(root))
